@@ -81,7 +81,7 @@ _spec_hash = None
 
 
 # bump when the logic of a stage in check.py / stages_ext.py changes what a stage produces
-STAGE_VERSION = "7"
+STAGE_VERSION = "8"
 
 
 def spec_hash():
@@ -601,14 +601,17 @@ def drop_partial_last_line(path):
         fh.write(b"\n".join(lines) + (b"\n" if lines else b""))
 
 
-def limits():
+def limits(address_space=True):
     """preexec_fn for processes that execute the code under test: a corrupted cache must
-    not be able to eat the machine (address space 6 GiB, cpu time 10 min)"""
+    not be able to eat the machine (address space 6 GiB; cpu time 2 min in the quick tier,
+    where the largest legitimate run takes seconds, 15 min in the thorough tier)"""
     import resource
+    cpu = 120 if os.environ.get("VERIF_TIER_EFFECTIVE", "quick") == "quick" else 900
 
     def f():
-        resource.setrlimit(resource.RLIMIT_AS, (6 << 30, 6 << 30))
-        resource.setrlimit(resource.RLIMIT_CPU, (600, 600))
+        if address_space:
+            resource.setrlimit(resource.RLIMIT_AS, (6 << 30, 6 << 30))
+        resource.setrlimit(resource.RLIMIT_CPU, (cpu, cpu))
     return f
 
 
@@ -663,6 +666,161 @@ def stage_drive(tier, name="drive", plan=None):
         shutil.rmtree(w, ignore_errors=True)
         return {"runs": results}
     return cached(name + "-" + tier, source_hash() + "-" + spec_hash() + "-" + str(seed), go)
+
+
+def stage_scale(tier):
+    """large-scale runs: thousands of entries, tens / hundreds of thousands of calls.  No TLC
+    here (one event would be megabytes): every n-th state is projected and the structural
+    self-consistency facets (harness/src/exec.rs self_facets: mirror traversals, iterated entry =
+    looked-up entry = list node, sum of recorded sizes, entry_size = recorded, the bound, lookups
+    of 6 000 keys against the traversal, no duplicate keys) are evaluated on the real state."""
+    seed = int(os.environ.get("VERIF_SEED", "0"))
+    jobs = [("default", "owned", 40000, 200)] if tier == "quick" else \
+           [("default", "owned", 400000, 400), ("identity", "borrowed", 300000, 400),
+            ("sip", "owned", 300000, 400), ("siprand", "borrowed", 300000, 400)]
+
+    def go(d):
+        def one(i, job):
+            def f():
+                h, k, steps, every = job
+                out = os.path.join(d, "scale-%d.out" % i)
+                cmd = [os.path.join(BIN, "drive"), "--seed", str(seed * 100 + i + 11), "--steps", str(steps),
+                       "--segment", "100000000", "--profile", "huge", "--hasher", h, "--keyform", k,
+                       "--events", out, "--selfcheck", str(every)]
+                p = subprocess.run(cmd, stdout=subprocess.PIPE, stderr=subprocess.PIPE, text=True,
+                                   timeout=3600, preexec_fn=limits())
+                res = {"hasher": h, "keyform": k, "steps": steps, "rc": p.returncode,
+                       "stderr": p.stderr[-800:], "summary": None}
+                if p.returncode == 0:
+                    res["summary"] = json.loads(p.stdout.strip().splitlines()[-1])
+                else:
+                    try:
+                        with open(out) as fh:
+                            res["last_progress"] = fh.readlines()[-1].strip()
+                    except Exception:
+                        pass
+                if os.path.exists(out):
+                    os.remove(out)
+                return res
+            return f
+        return {"runs": run_parallel([one(i, j) for i, j in enumerate(jobs)], 4)}
+    return cached("scale-" + tier, source_hash() + "-" + spec_hash() + "-" + str(seed), go)
+
+
+SELF_FACET_OWNERS = {
+    "trav": ["C07"], "bound": ["C01"], "es_eq_rec": ["C02"], "sum_rec": ["C02"], "len": ["C02"],
+    "is_empty": ["C02"], "mirror": ["C07"], "keysiter": ["C07"], "vals_ok": ["C07"],
+    "ptr_iter": ["C07"], "ptr_peek": ["C07"], "dead": ["C07"], "hook_cur": ["C07"], "lru": ["C05"],
+    "mru": ["C05"], "nodup": ["C04"], "probe": ["C04"], "probe_ro": ["C19"], "anom": ["C06"],
+}
+
+
+def scale_into(prop, tier, fnd, cov):
+    sc = stage_scale(tier)
+    calls = 0
+    proj = 0
+    biggest = 0
+    for r in sc["runs"]:
+        if r["rc"] != 0:
+            oom = "memory allocation of" in (r.get("stderr") or "")
+            stopped = r["rc"] in (-9, -24)
+            owners = ["C13"] if oom else (["C07", "C02"] if stopped else ["C07"])
+            if prop in owners:
+                fnd.add("scale_run_died", "large-scale run (%s/%s) died with rc %s after %s: %s" %
+                        (r["hasher"], r["keyform"], r["rc"], r.get("last_progress"), r["stderr"][-300:]),
+                        {"kind": "scale", "job": r})
+            continue
+        s = r["summary"]
+        calls += s["steps"]
+        proj += s["selfcheck_projections"]
+        biggest = max(biggest, s["max_len"])
+        for f in s["selfcheck_failures"]:
+            if prop in SELF_FACET_OWNERS.get(f["facet"], []):
+                fnd.add("scale:%s" % f["facet"],
+                        "large-scale run (%s/%s, seed-derived): after call %s (%s, %s entries) the cache "
+                        "contradicts itself in facet %s: should be %s, is %s" %
+                        (r["hasher"], r["keyform"], f["step"], f["op"], f.get("len"), f["facet"],
+                         f["expected"][:200], f["actual"][:200]),
+                        {"kind": "scale", "hasher": r["hasher"], "keyform": r["keyform"], "failure": f})
+    cov["scale_calls"] = calls
+    cov["scale_states_checked"] = proj
+    cov["largest_cache_at_scale"] = biggest
+
+
+def stage_asan(tier, script, segfiles=(), name="asan"):
+    """the same replay / segment inputs executed by a binary built with AddressSanitizer
+    (nightly, -Zsanitizer=address): an extra observation channel on the conformance run for the
+    memory clauses of C07 / C16 / C17 - a read of freed or moved-out table memory that leaves
+    no trace in the state still aborts here.  Unavailable toolchain = channel reported absent."""
+    steps = 40000 if tier == "quick" else 400000
+
+    def go(d):
+        tdir = os.path.join(HARNESS, "target-asan")
+        env = {"CARGO_NET_OFFLINE": "true",
+               "RUSTFLAGS": "--cfg lru_mem_verif --check-cfg cfg(lru_mem_verif) -Zsanitizer=address",
+               "CARGO_TARGET_DIR": tdir}
+        b = run(["cargo", "+nightly", "build", "--release", "--offline", "--target",
+                 "x86_64-unknown-linux-gnu", "--bin", "run"], 1800, cwd=HARNESS, env=env, ok_codes=None)
+        if b.returncode != 0:
+            return {"available": False, "why": b.stderr[-600:]}
+        exe = os.path.join(tdir, "x86_64-unknown-linux-gnu", "release", "run")
+        aenv = dict(os.environ, ASAN_OPTIONS="detect_leaks=0:abort_on_error=1:allocator_may_return_null=1")
+        runs = []
+
+        def one(kind, path, extra):
+            def f():
+                prog = os.path.join(d, "progress-%s-%s" % (kind, os.path.basename(path)))
+                cmd = [exe, "--hasher", "const", "--keyform", "owned", "--universe", "3", "--progress", prog] + extra
+                p = subprocess.run(cmd, stdout=subprocess.PIPE, stderr=subprocess.PIPE, text=True,
+                                   timeout=3600, env=aenv, preexec_fn=limits(address_space=False))
+                at = 0
+                try:
+                    at = int(open(prog).read().strip() or 0)
+                except Exception:
+                    pass
+                rep = p.stderr
+                i = rep.find("ERROR: AddressSanitizer")
+                res = {"kind": kind, "input": path, "rc": p.returncode, "at": at,
+                       "asan": rep[i:i + 1500] if i >= 0 else "", "stderr_tail": rep[-300:] if i < 0 else ""}
+                try:
+                    res["summary"] = json.loads(p.stdout.strip().splitlines()[-1])
+                except Exception:
+                    res["summary"] = None
+                return res
+            return f
+        jobs = [one("replay", script, ["--script", script, "--stop-after", str(steps)])]
+        for sf in segfiles:
+            jobs.append(one("segments", sf, ["--segments", sf, "--events", os.devnull]))
+        return {"available": True, "runs": run_parallel(jobs, 4)}
+    return cached(name + "-" + tier, source_hash() + "-" + spec_hash() + "-" +
+                  os.environ.get("VERIF_SEED", "0"), go)
+
+
+def asan_into(prop, res, fnd, cov, what):
+    cov.setdefault("asan_channel", {})[what] = "unavailable" if not res.get("available") else "ran"
+    if not res.get("available"):
+        return
+    for r in res["runs"]:
+        s = r.get("summary") or {}
+        cov["asan_steps"] = cov.get("asan_steps", 0) + int(s.get("executed", 0))
+        if r["asan"]:
+            ops = []
+            if r["kind"] == "replay":
+                ops = script_segment(r["input"], r["at"])
+            else:
+                try:
+                    with open(r["input"]) as fh:
+                        for i, raw in enumerate(fh, 1):
+                            if i == r["at"]:
+                                seg = json.loads(raw)
+                                ops = seg["prefix"] + [seg["op"]] + seg.get("suffix", [])
+                except Exception:
+                    pass
+            fnd.add("asan:%s" % r["kind"],
+                    "AddressSanitizer aborted the %s run at input line %s: %s" %
+                    (r["kind"], r["at"], r["asan"][:500].replace("\n", " | ")),
+                    {"kind": "asan", "hasher": "const", "keyform": "owned", "universe": 3, "ops": ops[-300:],
+                     "report": r["asan"]})
 
 
 # --------------------------------------------------------------------------- attribution
@@ -885,9 +1043,12 @@ def collect_core(prop, tier, fnd, cov):
     cov["replayed_steps"] = executed
     drv = stage_drive(tier)
     collect_drive(prop, drv, fnd, cov)
+    if prop in ("C01", "C02", "C04", "C07"):
+        scale_into(prop, tier, fnd, cov)
     if prop == "C07":
         import stages_ext
         stages_ext.list_into(prop, tier, fnd, cov, sys.modules[__name__])
+        asan_into(prop, stage_asan(tier, dump["script"]), fnd, cov, "replay")
     if prop == "C13":
         # tombstone arithmetic at design level: probe group width scaled down to 2
         base = stage_model(tier, base="MC_TombBase", name="model-tombbase")
@@ -963,6 +1124,7 @@ def collect_drive(prop, drv, fnd, cov, key="traces_validated_against_impl", cras
 
 def decide(prop, tier):
     t0 = time.time()
+    os.environ["VERIF_TIER_EFFECTIVE"] = tier
     seed = int(os.environ.get("VERIF_SEED", "0"))
     fnd = Findings(prop)
     cov = {}
